@@ -398,7 +398,7 @@ func indexWithin(s boundSite) (bool, string) {
 				x, y = y, x
 				op = flipOp(op)
 			}
-			if !sameAccess(x, idx) {
+			if !sameModuloIntConv(x, idx) {
 				continue
 			}
 			isLen := isLenOf(y, s.base)
@@ -999,11 +999,11 @@ func valueWithinLen(s boundSite, v ssa.Value) (upper, lower bool) {
 		for _, cmp := range condAtoms(ifi.Cond) {
 			x, y := stripIntConv(cmp.X), stripIntConv(cmp.Y)
 			op := cmp.Op
-			if sameAccess(y, idx) && !sameAccess(x, idx) {
+			if sameModuloIntConv(y, idx) && !sameModuloIntConv(x, idx) {
 				x, y = y, x
 				op = flipOp(op)
 			}
-			if !sameAccess(x, idx) {
+			if !sameModuloIntConv(x, idx) {
 				continue
 			}
 			isLen := isLenOf(y, s.base)
@@ -1040,6 +1040,30 @@ func valueWithinLen(s boundSite, v ssa.Value) (upper, lower bool) {
 		}
 	}
 	return
+}
+
+// sameModuloIntConv(guard, site): the two values are the same expression up to
+// integer conversions of its leaves, the guard being computed in a type at
+// least as wide as the site's (it then bounds the narrower computation once it
+// is below the operand's length).
+func sameModuloIntConv(a, b ssa.Value) bool {
+	a, b = stripIntConv(a), stripIntConv(b)
+	if sameAccess(a, b) {
+		return true
+	}
+	x, ok1 := a.(*ssa.BinOp)
+	y, ok2 := b.(*ssa.BinOp)
+	if ok1 && ok2 && x.Op == y.Op && (x.Op == token.ADD || x.Op == token.SUB) {
+		// the guard (a) must be computed at least as wide as the guarded expression (b):
+		// a narrower guard could wrap and pass while the wider site is out of range
+		ba, _, oka := intBits(x.Type())
+		bb, _, okb := intBits(y.Type())
+		if !oka || !okb || ba < bb {
+			return false
+		}
+		return sameModuloIntConv(x.X, y.X) && sameModuloIntConv(x.Y, y.Y)
+	}
+	return false
 }
 
 func isConstMinusOne(v ssa.Value) bool {
